@@ -19,7 +19,7 @@ CHECKS = {
          "associations, ^, positioning passes assigning advance.x / shift.x / shift.y / kern.x from expressions that read slot attributes and the advancewidth metric, attachment of marks to bases and to other marks with the engine's cluster positioning), is run on the IR and "
          "compared with libgraphite2 on the compiled font: glyph sequence, user attributes, associations, positions (x, y, advance), for about 2200 (thorough: 45000) generated texts "
          "over nine program families (one with ^ anywhere and deletions as first item) and feature settings; one-rule programs additionally compare every user attribute with a direct evaluation."),
-   note=TB + "The interpreter is a specification executed against the real engine, not a proved object (one sanity theorem: a pass without rules is the identity). NOT modelled: justification, collision, right-to-left, advance.y / measure attributes, line-break items, the MaxRuleLoop counter (runs where a rule application does not advance are reported as outside the fragment and skipped), associations of items deleted without an explicit association (compiler policy). One point follows libgraphite2 rather than the GDL text: @k reads an item's slot as matched if the rule changes its glyph, and in its current state if the rule only sets attributes on it. libgraphite2 stores user attributes in 16 bits.",
+   note=TB + "The interpreter is a specification executed against the real engine, not a proved object (sanity theorems: a pass none of whose rules matches anywhere is the identity, for the engine loop with its highwater mark and loop counter). The scan loop follows libgraphite2's Pass::runGraphite / doAction / adjustSlot as I know them (highwater mark, passed flag, MaxRuleLoop counter, the action's return value moving the position back or forth) and was validated against the library on the generated texts. NOT modelled: justification, collision, right-to-left, advance.y / measure attributes, line-break items, the jump the engine makes when the MaxRuleLoop counter runs out (such runs are reported as outside the fragment and skipped), associations of items deleted without an explicit association (compiler policy). One point follows libgraphite2 rather than the GDL text: @k reads an item's slot as matched if the rule changes its glyph, and in its current state if the rule only sets attributes on it. libgraphite2 stores user attributes in 16 bits.",
    design="4/C01"),
  "C03": dict(
    technique="strict Lean decoders + Lean theorem Code.check_sound (accepted code returns without underflow under every context-item outcome), opcode table regenerated from constants.h; run on real output over the option matrix; libgraphite2 acceptance",
